@@ -168,6 +168,15 @@ def nest(rng, depth):
         body = op * rng.randrange(depth) + core + cl * depth
     else:
         body = "".join(rng.choice(["(", "[", "f(", "{"]) for _ in range(depth)) + core
+    if rng.random() < 0.3:
+        # nestings inside types, parameter lists and lambdas
+        d = depth
+        t = rng.choice(["Sequence<", "(", "(int, ", "Optional<"])
+        c = {"Sequence<": ">", "(": ")", "(int, ": ")", "Optional<": ">"}[t]
+        close = c * (d if rng.random() < 0.6 else rng.randrange(d + 1))
+        return rng.choice([f"let v: {t * d}int{close} = 1;", f"fn f(a: {t * d}int{close})->int{{1}}", f"struct A(a: {t * d}int{close})",
+                           f"type T = {t * d}int{close};", "let v = " + "(a: int ?= " * d + "1" + ")->{a}" * (d if rng.random() < 0.6 else d // 2) + ";",
+                           "let v = " + "(" * d + "1" + ",)" * d + ";", "let v = " + "g<" * d + "1" + ">" * rng.choice([0, d]) + ";"])
     return rng.choice(["let v = ", "fn f()->int{", "type T = ", ""]) + body + rng.choice([";", "}", ""])
 
 
@@ -189,7 +198,7 @@ def run(chk):
     # ================================================================== (i) lexical handlers
     esc_alpha = ["\\", "\\", "u", "{", "}", "}", "4", "1", "F", "f", "0", "g", "+", "n", "t", "r", "q", "\"", "'", "\n", "é", "😀", "D", "8", " ", "{{", "}}", "\\u{", "\\u{41}", "\\u{1F600}", "\\u{D800}", "\\u{110000}", "\\u{0000041}"]
     ecases = ["", "\\", "\\\\", "a\\", "\\u{}", "\\u{}}", "\\u{+41}", "\\u{41", "\\u{4\n1}", "\\\n", "\\u", "\\u{10FFFF}", "\\u{110000}", "\\u{d7ff}\\u{e000}", "\\u{DFFF}"]
-    ecases += ["".join(rng.choice(esc_alpha) for _ in range(rng.choice([1, 2, 3, 5, 8, 12]))) for _ in range(1500 if quick else 40000)]
+    ecases += ["".join(rng.choice(esc_alpha) for _ in range(rng.choice([1, 2, 3, 5, 8, 12]))) for _ in range(1500 if quick else 20000)]
     for f, orc in (("escapes", py_escapes), ("brace", py_brace)):
         impl = run_harness([{"op": "lex", "f": f, "s": L(s)} for s in ecases])
         model = run_model([f"lex {f} {cps(s)}" for s in ecases])
@@ -217,7 +226,7 @@ def run(chk):
             return rng.choice(["item", "item", "item", "Item", "items", "_item", "ite"]) + num + suffix
         return "".join(rng.choice("abitem_01") for _ in range(rng.choice([1, 2, 4, 6])))
     groups = [["item1a", "item1b", "item1", "item01", "item1a"], ["item99999999999999999999999", "item0", "item00"]]
-    groups += [[gen_name() for _ in range(rng.choice([2, 4, 8]))] for _ in range(300 if quick else 8000)]
+    groups += [[gen_name() for _ in range(rng.choice([2, 4, 8]))] for _ in range(300 if quick else 4000)]
     groups = [[n for n in g if _re.fullmatch(r"[A-Za-z_][A-Za-z_0-9]*", n)] for g in groups]
     impl = run_harness([{"op": "lex", "f": "intern", "names": [L(n) for n in g]} for g in groups])
     flat = [n for g in groups for n in g]
@@ -251,7 +260,7 @@ def run(chk):
             chk.violation("tie:unit:intern", f"model disagrees with the implementation on interning {g}: model={mk} impl={kinds}", replay, no_input=True)
 
     # ---- number literals through the language
-    toks = [gen_number(rng) for _ in range(600 if quick else 20000)]
+    toks = [gen_number(rng) for _ in range(600 if quick else 8000)]
     toks += ["0x" + "f" * 33, "1e999", "0x_1", "0b_1", "1_", "1__2", "1._5", "1e-0_0", "0e0", "9" * 39, "1.5e3", "1E5", "123456789012345678901234567890.5"]
     dumps = eval_exprs(toks)
     model = run_model([f"lex number {cps(t)}" for t in toks])
@@ -282,18 +291,18 @@ def run(chk):
     base = corpus()
     chk.coverage["corpus_texts"] = len(base)
     texts = []   # (kind, text)
-    n_soup, n_mut, n_nest = (500, 900, 260) if quick else (60000, 120000, 20000)
+    n_soup, n_mut, n_nest = (400, 700, 240) if quick else (6000, 12000, 3000)
     for _ in range(n_soup):
         texts.append(("soup", "".join(rng.choice(TOKENS) + rng.choice(["", " "]) for _ in range(rng.choice([1, 2, 4, 8, 16, 40])))))
     for _ in range(n_mut):
         texts.append(("mutation", mutate(rng, rng.choice(base), base)))
     for _ in range(n_nest):
         texts.append(("nesting", nest(rng, rng.choice([1, 2, 3, 8, 16, 32, 63, 64]))))
-    for t in toks[:200 if quick else 5000]:
+    for t in toks[:200 if quick else 2000]:
         texts.append(("number", f"let a = {t}{rng.choice([';', '', 'x;', '.5;', '_;', 'e;'])}"))
     for t in rng.sample(base, 60 if quick else len(base)):
         texts.append(("shipped", t))
-    resps = run_harness([{"op": "lex", "f": "compile", "src": t} for _, t in texts], per_req_timeout=20.0)
+    resps = run_harness([{"op": "lex", "f": "compile", "src": t} for _, t in texts], per_req_timeout=10.0)
     for (kind, t), r in zip(texts, resps):
         chk.evaluations += 1
         replay = {"harness": {"op": "lex", "f": "compile", "src": t}, "got": r}
@@ -315,12 +324,12 @@ def run(chk):
     # ================================================================== (iii) determinism
     dets = []
     progs = [t for t in base if "fn main" in t or "let " in t]
-    for _ in range(120 if quick else 3000):
+    for _ in range(100 if quick else 1200):
         t = rng.choice(progs) if rng.random() < 0.6 else mutate(rng, rng.choice(base), base)
         names = sorted(set(_re.findall(r"let ([a-z_][a-z_0-9]*)", t)))[:6]
         before = [rng.choice(base) for _ in range(rng.choice([0, 1, 3]))] + [mutate(rng, rng.choice(base), base)]
         dets.append({"op": "lex", "f": "determinism", "src": t, "before": before, "get": names})
-    resps = run_harness(dets, per_req_timeout=60.0)
+    resps = run_harness(dets, per_req_timeout=20.0)
     for q, r in zip(dets, resps):
         chk.evaluations += 1
         replay = {"harness": q, "got": r}
@@ -335,7 +344,12 @@ def run(chk):
             continue
         chk.count("determinism:" + ("accept" if r["first"].get("compile") == "ok" else "reject"))
         for other in ("again", "after", "limited"):
-            if r[other] != r["first"]:
+            a, b = r["first"], r[other]
+            if other == "limited":
+                # other limits: the compilation outcome is the same; the values are compared when both runs stayed inside their limits
+                if a.get("compile") == b.get("compile") and (a.get("inst") != "ok" or b.get("inst") != "ok"):
+                    continue
+            if a != b:
                 chk.violation(f"determinism:{other}", f"the same text gives a different outcome when compiled {other}: first={json.dumps(r['first'])[:200]} {other}={json.dumps(r[other])[:200]}", replay)
 
     return chk.finish(rule="texts = token soups over the grammar's alphabet, mutations and splices of test_scripts/*.xr and the book's xray blocks, "
